@@ -649,7 +649,7 @@ func (s *sharedEntryAttributes) NavigateSdcpbPath(ctx context.Context, pathElems
 
 	switch pathElems[0].Name {
 	case ".":
-		s.NavigateSdcpbPath(ctx, pathElems[1:], false)
+		return s.NavigateSdcpbPath(ctx, pathElems[1:], false)
 	case "..":
 		var entry Entry
 		entry = s.parent
